@@ -121,8 +121,11 @@ func (amp *AlignedAllocator) AppendString(pbuf *[]byte, s string) *[]byte {
 //
 //go:norace
 func (amp *AlignedAllocator) Free(pbuf *[]byte) {
+	// Only a capacity that is exactly the size of a class is pooled (the
+	// classes are the powers of two from 32 to 32k): Malloc re-slices what it
+	// takes from a class up to that size.
 	size := cap(*pbuf)
-	if (size&minAlignedBufferSizeMask) != 0 || size > maxAlignedBufferSize {
+	if size < minAlignedBufferSize || size > maxAlignedBufferSize || (size&(size-1)) != 0 {
 		return
 	}
 	amp.incrFree(pbuf)
